@@ -90,3 +90,174 @@ pub fn drv_iter_for_each<I: Iterator, F: FnMut(I::Item)>(mut it: I, mut f: F) {
         }
     }
 }
+
+// ---- second batch: consumers and adaptors that repository code may reach for -------------------
+
+pub struct DrvEnumerate<I> { pub it: I, pub n: usize }
+pub struct DrvTakeWhile<I, F> { pub it: I, pub f: F, pub done: bool }
+pub struct DrvSkip<I> { pub it: I, pub n: usize }
+pub struct DrvTake<I> { pub it: I, pub n: usize }
+pub struct DrvZip<A, B> { pub a: A, pub b: B }
+pub struct DrvChain<A, B> { pub a: A, pub b: B, pub first_done: bool }
+
+pub fn drv_iter_enumerate<I>(it: I) -> DrvEnumerate<I> { DrvEnumerate { it, n: 0 } }
+pub fn drv_iter_take_while<I, F>(it: I, f: F) -> DrvTakeWhile<I, F> { DrvTakeWhile { it, f, done: false } }
+pub fn drv_iter_skip<I>(it: I, n: usize) -> DrvSkip<I> { DrvSkip { it, n } }
+pub fn drv_iter_take<I>(it: I, n: usize) -> DrvTake<I> { DrvTake { it, n } }
+pub fn drv_iter_zip<A, B>(a: A, b: B) -> DrvZip<A, B> { DrvZip { a, b } }
+pub fn drv_iter_chain<A, B>(a: A, b: B) -> DrvChain<A, B> { DrvChain { a, b, first_done: false } }
+
+pub fn drv_enumerate_next<I: Iterator>(e: &mut DrvEnumerate<I>) -> Option<(usize, I::Item)> {
+    match e.it.next() {
+        Some(x) => {
+            let i = e.n;
+            e.n += 1;
+            Some((i, x))
+        }
+        None => None,
+    }
+}
+
+pub fn drv_take_while_next<I: Iterator, F: FnMut(&I::Item) -> bool>(t: &mut DrvTakeWhile<I, F>) -> Option<I::Item> {
+    if t.done {
+        return None;
+    }
+    match t.it.next() {
+        Some(x) => {
+            if (t.f)(&x) {
+                Some(x)
+            } else {
+                t.done = true;
+                None
+            }
+        }
+        None => None,
+    }
+}
+
+pub fn drv_skip_next<I: Iterator>(s: &mut DrvSkip<I>) -> Option<I::Item> {
+    while s.n > 0 {
+        s.n -= 1;
+        match s.it.next() {
+            Some(_) => {}
+            None => return None,
+        }
+    }
+    s.it.next()
+}
+
+pub fn drv_take_next<I: Iterator>(t: &mut DrvTake<I>) -> Option<I::Item> {
+    if t.n == 0 {
+        return None;
+    }
+    t.n -= 1;
+    t.it.next()
+}
+
+pub fn drv_zip_next<A: Iterator, B: Iterator>(z: &mut DrvZip<A, B>) -> Option<(A::Item, B::Item)> {
+    match z.a.next() {
+        Some(x) => match z.b.next() {
+            Some(y) => Some((x, y)),
+            None => None,
+        },
+        None => None,
+    }
+}
+
+pub fn drv_chain_next<A: Iterator, B: Iterator<Item = A::Item>>(c: &mut DrvChain<A, B>) -> Option<A::Item> {
+    if !c.first_done {
+        match c.a.next() {
+            Some(x) => return Some(x),
+            None => c.first_done = true,
+        }
+    }
+    c.b.next()
+}
+
+pub fn drv_iter_position<I: Iterator, F: FnMut(I::Item) -> bool>(it: &mut I, mut f: F) -> Option<usize> {
+    let mut i = 0usize;
+    loop {
+        match it.next() {
+            Some(x) => {
+                if f(x) {
+                    return Some(i);
+                }
+                i += 1;
+            }
+            None => return None,
+        }
+    }
+}
+
+pub fn drv_iter_find<I: Iterator, F: FnMut(&I::Item) -> bool>(it: &mut I, mut f: F) -> Option<I::Item> {
+    loop {
+        match it.next() {
+            Some(x) => {
+                if f(&x) {
+                    return Some(x);
+                }
+            }
+            None => return None,
+        }
+    }
+}
+
+pub fn drv_iter_find_map<I: Iterator, B, F: FnMut(I::Item) -> Option<B>>(it: &mut I, mut f: F) -> Option<B> {
+    loop {
+        match it.next() {
+            Some(x) => {
+                if let Some(b) = f(x) {
+                    return Some(b);
+                }
+            }
+            None => return None,
+        }
+    }
+}
+
+pub fn drv_iter_fold<I: Iterator, B, F: FnMut(B, I::Item) -> B>(mut it: I, init: B, mut f: F) -> B {
+    let mut acc = init;
+    loop {
+        match it.next() {
+            Some(x) => acc = f(acc, x),
+            None => return acc,
+        }
+    }
+}
+
+pub fn drv_iter_last<I: Iterator>(mut it: I) -> Option<I::Item> {
+    let mut last = None;
+    loop {
+        match it.next() {
+            Some(x) => last = Some(x),
+            None => return last,
+        }
+    }
+}
+
+pub fn drv_iter_nth<I: Iterator>(it: &mut I, mut n: usize) -> Option<I::Item> {
+    loop {
+        match it.next() {
+            Some(x) => {
+                if n == 0 {
+                    return Some(x);
+                }
+                n -= 1;
+            }
+            None => return None,
+        }
+    }
+}
+
+/// `[T]::partition_point`: for a slice partitioned by `pred` (the documented precondition) the result is the
+/// index of the first element for which `pred` is false; for other slices std leaves the result unspecified.
+pub fn drv_slice_partition_point<T, F: FnMut(&T) -> bool>(s: &[T], mut pred: F) -> usize {
+    let mut i = 0usize;
+    while i < s.len() {
+        if !pred(&s[i]) {
+            return i;
+        }
+        i += 1;
+    }
+    i
+}
